@@ -526,6 +526,11 @@ func (this *Writer) Write(block []byte) (int, error) {
 		return 0, &IOError{msg: "Stream closed", code: kanzi.ERR_WRITE_FILE}
 	}
 
+	// A previous batch failed: do not buffer more data, it could never be written
+	if atomic.LoadInt32(&this.blockID) == _CANCEL_TASKS_ID {
+		return 0, &IOError{msg: "Stream in error state: a previous block could not be written", code: kanzi.ERR_WRITE_FILE}
+	}
+
 	off := 0
 	remaining := len(block)
 
